@@ -3,7 +3,7 @@
 Engine A with fault injection.  After an optional good build and edit, one to
 three consecutive invocations are *aborted*:
   * a step script exits non-zero after its k-th command (partial output);
-  * a step script is SIGKILLed at its k-th command together with Bob;
+  * a step script is SIGKILLed at its k-th command, alone or together with Bob;
   * Bob is killed (os._exit, no finally/finalize) at its k-th kill point --
     every persistent-state save (before write / before rename / after rename),
     every fs mutation of the builder, around every subprocess / executor job;
@@ -40,9 +40,9 @@ def plan(tier):
     return {"cases": 40, "timeout": 600, "wall_budget": 70, "recheck": 2, "nproc": 6}
 
 def _gen_abort(rng, jobs):
-    k = rng.choice(["script-exit", "script-exit", "script-kill", "bob-kill", "bob-kill", "bob-kill", "sigint"])
+    k = rng.choice(["script-exit", "script-exit", "script-kill", "script-kill-only", "bob-kill", "bob-kill", "bob-kill", "sigint"])
     a = {"kind": k, "jobs": jobs, "sched_seed": rng.getrandbits(32)}
-    if k in ("script-exit", "script-kill"):
+    if k in ("script-exit", "script-kill", "script-kill-only"):
         if rng.random() < 0.7:
             # first script of that kind that runs in the aborted invocation
             a["match"] = rng.choice(["/build/", "/dist/", "/src/", "/build/", "/dist/"])
@@ -99,6 +99,9 @@ def _cfg(a):
         cfg["script_faults"] = [{"nth": a.get("nth"), "match": a.get("match"), "at": a["at"], "kind": "exit"}]
     elif a["kind"] == "script-kill":
         cfg["script_faults"] = [{"nth": a.get("nth"), "match": a.get("match"), "at": a["at"], "kind": "kill", "kill_bob": True}]
+    elif a["kind"] == "script-kill-only":
+        # the script dies from SIGKILL (no traps run), Bob survives and reports the failure
+        cfg["script_faults"] = [{"nth": a.get("nth"), "match": a.get("match"), "at": a["at"], "kind": "kill"}]
     elif a["kind"] == "bob-kill":
         cfg["kill_at"] = a["point"]
     elif a["kind"] == "sigint":
@@ -204,7 +207,7 @@ def run_case(case):
                 if fired:
                     fired_any = True
                     stats.inc("fault_" + a["kind"].replace("-", "_"))
-                    if a["kind"] == "script-exit" and r.rc == 0:
+                    if a["kind"] in ("script-exit", "script-kill-only") and r.rc == 0:
                         viol = {"kind": "failed-step-ignored",
                                 "detail": "script %s failed at command %d but bob exited 0" % (a.get("nth") or a.get("match"), a["at"])}
                         break
